@@ -131,10 +131,15 @@ def run(tier, replay_file=None):
         outs = ex.explore(h, assume)
         chk.paths += len(outs)
         w = V('w')
-        shared = z3.Exists(w.terms(), z3.And(*w.wf(), spec_in(k1, a1, b1, w), spec_in(k2, a2, b2, w)))
+        shared_q = z3.Exists(w.terms(), z3.And(*w.wf(), spec_in(k1, a1, b1, w), spec_in(k2, a2, b2, w)))
+        # quantifier-free characterisation (a total order without least element: ranges meet iff a lower bound lies in both)
+        lows = ([a1] if k1 in ('From', 'FromUntil') else []) + ([a2] if k2 in ('From', 'FromUntil') else [])
+        shared = z3.Or([z3.And(spec_in(k1, a1, b1, c_), spec_in(k2, a2, b2, c_)) for c_ in lows]) if lows else z3.BoolVal(True)
+        chk.prove(f'overlap-spec/{k1}x{k2}/quantifier-free-form-equals-exists-a-shared-version', assume, shared != shared_q, allow_unknown=True)
         for pc, (k, res) in outs:
             if k != 'ok': raise Inconclusive(f'overlaps_with panicked: {res}')
             m = chk.prove(f'overlap/{k1}x{k2}', pc, zb(res) != shared)
+            if m is None: chk.prove(f'overlap-exists/{k1}x{k2}', pc, zb(res) != shared_q, allow_unknown=True)
             if m is not None:
                 c = concretise(m, [a1, b1, a2, b2])
                 got, case = native_overlap(k1, c['a1'], c['b1'], k2, c['a2'], c['b2'])
